@@ -656,6 +656,11 @@ impl FileStateMachine {
                                     }
                                 }
                             } else {
+                                // Same rule as apply_chunk: a write without TTL cancels an
+                                // earlier expiry of the key.
+                                if let Some(ref lease) = self.lease {
+                                    lease.unregister(&key);
+                                }
                                 debug!("Replayed INSERT: key={:?}", key);
                             }
 
@@ -1202,6 +1207,10 @@ impl StateMachine for FileStateMachine {
                                 .as_ref()
                                 .expect("lease always initialized by NodeBuilder");
                             lease.register(key.clone(), *ttl);
+                        } else if let Some(ref lease) = self.lease {
+                            // A write without TTL makes the key permanent: an expiry registered
+                            // by an earlier write must not delete the new value.
+                            lease.unregister(key);
                         }
                         results.push(ApplyResult::success(entry.index));
                     }
@@ -1230,6 +1239,10 @@ impl StateMachine for FileStateMachine {
                         });
                         if cas_success {
                             data.insert(key.clone(), (new_value.clone(), entry.term));
+                            // CAS writes carry no TTL: the swapped-in value is permanent.
+                            if let Some(ref lease) = self.lease {
+                                lease.unregister(key);
+                            }
                         }
                     }
                 }
